@@ -95,6 +95,12 @@ func c14Check(w *vx.W, x c14Case) {
 func TestVerif_C14(t *testing.T) {
 	vx.Run(t, "C14", func(c *vx.Ctx) {
 		wide := !c.Quick()
+		// http2_test.go switches on the goroutine-ownership debug assertions,
+		// which parse a stack trace on every call (3/4 of the run time); they
+		// are a development aid and not part of the behaviour under test.
+		prevDbg := disableDebugGoroutines.Load()
+		disableDebugGoroutines.Store(true)
+		defer disableDebugGoroutines.Store(prevDbg)
 		c.Rule("a case = SETTINGS configuration (server/client max frame size, stream and connection windows, header table sizes, write scheduler, request before/after the SETTINGS exchange) x request shape (method, path, header set, body length, declared/undeclared length, body Read chunking, trailers) x response shape (status, 103, header set, body length, declared length, Write chunking, Flush, declared / TrailerPrefix trailers, handler order); parts: 'cover' = covering array of strength 2 (thorough: 3) over all 26 dimensions; 'request-product', 'response-product', 'header-product' = full products of the dimensions that interact in one direction; 'short-read' = base scenarios x every placement of <= 1 (thorough: <= 2) short reads (1 or 7 bytes) at every read index of either direction. non-trivial = the exchange completed and all request and response observations were compared; distinct = distinct frame-type traces on the wire (both directions)")
 		c.Assume("excluded from the domain: request trailers without a request body stream; handlers that answer with a status > 299 before reading the request body (the Transport then stops sending the body by documented heuristic); 204/304 with content; bodies that would need more than 4000 window refills (1-byte windows with large bodies: cost); Expect: 100-continue, CONNECT, hop-by-hop fields, gzip (DisableCompression), Transfer-Encoding, Host/Priority/Trailer/Te fields set by the application; server push; more than one request per connection (see C08-C11, C15, C17 for concurrency)")
 		c.Assume("allow-list of fields the libraries add: request User-Agent default and Content-Length (must equal the body length); response Date (any value) and Content-Length (must equal the number of bytes the handler wrote); Content-Type sniffing is avoided by always setting Content-Type; HEAD responses carry neither body nor trailers; values of one field name are compared in order, different names as a multiset; names are compared after net/http canonicalisation")
